@@ -112,7 +112,9 @@ CHECKS = {
              "if the order gets through, qha's grid refinement is compared as exact linear maps of symbolic free energies and interpolate_modes "
              "as uninterpreted interpolants of its node sets); re-orderings of static rows that move the strain reference row are decided to "
              "1e-6 by LRA on concrete volume grids; through the real Calculator._load every static row keeps its volume, components and lattice "
-             "parameters together for 5 (24) row orders of a table with lattice block.",
+             "parameters together for 5 (24) row orders of a table with lattice block; get_axial_strains returns the same strain fractions "
+             "when every lattice parameter is multiplied by one symbolic positive factor (another length unit), on every path of any "
+             "tolerance test it applies to the data (solver-decided allclose, exact least squares on concrete volumes).",
         note="Outside: the affine invariance of the static fit for symbolic volumes (decided on concrete grids only), rounding; the "
              "phonon volume-order obligation is decided at the hand-over (identical data downstream), not by executing qha and scipy on "
              "permuted data.",
@@ -146,7 +148,8 @@ CHECKS = {
              "maps its own pressure field to the requested pressure, reproduces cubics exactly and returns a node's value at a node's "
              "pressure (so P(T,V(T,P)) = P holds exactly on grid nodes), for every bracket with distinct nodes; (c) the range check raises ValueError iff min_T P[T,last] < max requested p on all explored paths (requested grid P_MIN + j*DELTA_P with symbolic P_MIN, DELTA_P and complete settings), runs after "
              "refine_grid and propagates; on shipped data with a reachable range that starts above zero the real Calculator's pressure-base volume and tensor views "
-             "equal an independent monotone interpolation of the volume-base quantities (concrete twin).",
+             "equal an independent monotone interpolation of the volume-base quantities (concrete twin); the QHA adapter's pressure axis is the "
+             "one qha builds from its settings for P_MIN = 0, 6 and -2 GPa (concrete twin).",
         note="'P(T,V(T,P)) = P to interpolation accuracy' between nodes and monotonicity of V(P) for arbitrary data are numerical-analysis "
              "statements and are not claimed. The bracket search (numba) is stubbed by enumeration.",
         design="3/C06"),
@@ -203,7 +206,7 @@ CHECKS = {
         text="For each of the seven methods and the listed orders: the three returned arrays are exp(F), -F', -F'' of one and the same "
              "interpolant built from the flipped (ln V, ln omega) nodes with the documented node selection (for every implementation of "
              "the interpolant); lsq_poly is exact for ln omega polynomial in ln V up to the order for every admissible number of volumes down to nv = order+1, also when other orders were fitted on the same volumes earlier in the process; interpolate_modes fills slot (q,m) from "
-             "that mode only and leaves Gamma acoustic slots zero; plot_modes draws freq / gamma / V dgamma/dV for n = 0, 1, 2 and every -n the `cij modes` "
+             "that mode only (also for a q-point of weight 0) and leaves Gamma acoustic slots zero; plot_modes draws freq / gamma / V dgamma/dV for n = 0, 1, 2 and every -n the `cij modes` "
              "parser admits is drawable; interpolate_modes without an order runs like the method's own default order (twins).",
         note="That scipy's interpolants reproduce power laws on the extrapolated grid is library numerics (outside; used only in replays); the "
              "stubs do carry the library classes' extrapolation contract (probed on the installed scipy): every method is defined on a grid "
@@ -301,7 +304,7 @@ CHECKS = {
              "block (or none); write_energy followed by read_energy returns the same counts, P/V/E and every frequency at its place, also when "
              "the same path held (and was read as) other data sets before (bounded history of 4-6 steps); the `cij fill` command re-emits the "
              "two header lines and the lattice block unchanged, consumes exactly N+1 table lines, forwards its options and emits fill_cij of "
-             "the parsed table, also for column spellings the reader accepts (C_11, c2323); a hand-written phonon file with every numeric field "
+             "the parsed table row by row in the input's order on every order of the symbolic volumes (the rows stay with their lattice lines), also for column spellings the reader accepts (C_11, c2323); a hand-written phonon file with every numeric field "
              "symbolic (weights and q coordinates included) parses field by field. The volumes re-emitted by `cij fill` read back to the input's (precision twin).",
         note="Outside: numeric precision of the written text and float() parsing themselves (C-level), q coordinates and weights are concrete "
              "in the round trip (%-formatting realises them); for `cij fill` the text produced by pandas' to_string / read by its C parser is replaced "
